@@ -165,11 +165,17 @@ def sequence_legs(lens, strand):
         cstr = codon_strings(exp, GENOME, strand)
         want = "".join(cstr)
         if not exp:
-            try:
-                s = str(cds.extract_sequence())
-            except (ValueError, BioCantorException):
-                return True
-            return s == ""
+            # a CDS without a complete codon: every question is answered with the empty/False value or refused with a documented exception -
+            # never an internal error (StopIteration, IndexError, ...)
+            for q, empty in ((lambda: str(cds.extract_sequence()), ""), (lambda: str(cds.translate()), ""), (lambda: cds.num_codons, 0),
+                             (lambda: cds.has_canonical_start_codon, False), (lambda: cds.has_start_codon_in_specific_translation_table(TranslationTable.PROKARYOTE), False),
+                             (lambda: cds.has_valid_stop, False), (lambda: cds.has_in_frame_stop, False), (lambda: [str(c) for c in cds.scan_codons()], [])):
+                try:
+                    if q() != empty:
+                        return False
+                except (ValueError, BioCantorException):
+                    pass
+            return True
         # fast path on a fresh object
         fast = str(cds.extract_sequence())
         # codon path on a twin whose codon tuple was listed first
